@@ -3,7 +3,8 @@ F = "plugin/kotel/carrier.go"
 PROP = Prop(
     "C37",
     models=[(F, ["RecordCarrier.Get", "RecordCarrier.Set", "RecordCarrier.Keys"]),
-            ("plugin/kotel/tracer.go", ["Tracer.OnProduceRecordBuffered", "Tracer.OnFetchRecordBuffered"])],
+            ("plugin/kotel/tracer.go", ["Tracer.OnProduceRecordBuffered", "Tracer.OnFetchRecordBuffered"]),
+            ("pkg/kgo/source.go", ["recordToRecord"])],
     group_by_reset=True,
     rule="a case is a group: `reset H` builds a kgo.Record with a generated header list (0-6 headers over 1-4 keys drawn from a pool with the empty key, "
          "case variants, non-UTF-8 bytes, traceparent/tracestate; values nil / empty / bytes, so duplicate keys are the norm), followed by 4-12 "
@@ -13,22 +14,41 @@ PROP = Prop(
          "SDK provider: a child span with deterministic ids), then either via=mem (header copy) or via=wire (kgo.ProduceSync -> kfake of this tree -> kgo.PollRecords "
          "of a second client), then OnFetchRecordBuffered extracts; the extracted span context is read from the consumed record's context (noop) or from the parent "
          "handed to the SDK sampler. Thorough adds every header list of length <= 3 over 2 keys x {nil, empty, bytes} with Get/Set/Get/Keys of 3 keys. "
-         "non-trivial = the record has at least one header before the call (reset H: at least 2 headers; reset E: always). distinct = distinct op lines.",
+         "FETCHED records: `reset B` builds a partition response of one or two v2 record batches (2-6 records, 0-3 application headers each, ~30% of them under "
+         "traceparent/tracestate, optional compression, optional fetch offset inside the response) and decodes it with kgo.ProcessFetchPartition of this tree; then "
+         "4-12 bset/bget/bkeys calls run a carrier on record i of the batch, the records visited in batch order, in reverse, at random or one record repeatedly "
+         "(40% Set of a key the record does not carry, 25% Set of a key it carries), or binj runs the producer-side kotel hook on fetched record i (every record, in "
+         "or out of order, some twice) and a final bext runs the consumer-side hook's extraction on every injected record; after EVERY call the headers, Keys() and "
+         "Gets of EVERY record of the batch are dumped and compared with the model, in which the records are independent header lists. `reset R` is a bridge, end "
+         "to end: a kgo producer without hooks -> kfake -> a kotel-instrumented kgo client (SDK tracer, deterministic ids, TraceContext propagator) that polls and "
+         "re-produces the polled *kgo.Record values to a second topic in or out of batch order -> a kotel-instrumented sink; per record the harness reports what "
+         "the bridge's producer hook injected (span context of the publish span), what the sink's consumer hook extracted (remote parent of the receive span) and "
+         "the sink's headers; a few carrier calls on the sink's (really fetched) records follow. Thorough adds every batch of 2-3 records over 4 header lists with "
+         "every pair of Sets (record, one of 3 keys). "
+         "non-trivial = the record has at least one header before the call (reset H: at least 2 headers; reset E, reset R: always; batch ops: the batch has at "
+         "least 2 header-bearing records; binj/bext: at least 2 records). distinct = distinct op lines.",
     trusted_base=["hand-written model of RecordCarrier.Get/Set/Keys and of TraceContext inject/extract as Set/Get sequences (Model/C37.lean), tied by differential runs",
+                  "the records of a fetched batch are modelled as independent header lists (the specification of recordToRecord's per-record header windows); that the "
+                  "real slices do not alias is checked by the differential run over decoded batches and over the bridge, not proved",
                   "harness/cmd/c37 (observation dump; deterministic SDK id generator and capturing sampler used to read the injected/extracted span contexts)",
                   "go.opentelemetry.io/otel propagation.TraceContext and SDK (third party, used as is)",
                   "the wire half (headers unchanged by produce -> kfake -> fetch) is observed end to end, not proved here (record encode/decode is C18/C06)",
                   "Lean compiler/runtime for the driver"],
     assumptions=["Go strings and []byte are byte lists; Set always stores a non-nil value ([]byte(val))",
-                 "propagation Spec applicability: a tracestate is injected or the record carries no stale `tracestate` header (otherwise a string map also returns the stale one)"],
+                 "propagation Spec applicability: a tracestate is injected or the record carries no stale `tracestate` header (otherwise a string map also returns the stale one)",
+                 "bridge cases: the span context injected by the bridge's producer hook is read from the record's context after Produce returns and is an input of the model"],
 )
 MANIFEST = {
     "text": "Lean theorems for every header list (duplicate keys, empty keys, nil/empty values) and every key/value: after Set(k,v), Get(k)=v; Get of every other key is "
             "unchanged; Set rewrites exactly the first header with key k in place or appends (k,v) when absent; Keys is the list of header keys; after any sequence "
             "of Sets, Get returns the last value set per key, so inject-then-extract of distinct keys returns the injected values; the W3C trace-context inject "
-            "(Set tracestate, Set traceparent) followed by extract returns the injected traceparent/tracestate for every pre-existing header list. The model is tied to "
-            "plugin/kotel/carrier.go by differential runs, and the propagation claim is also checked end to end through the real kotel hooks, a kgo producer, kfake and a kgo consumer.",
+            "(Set tracestate, Set traceparent) followed by extract returns the injected traceparent/tracestate for every pre-existing header list. For the records of a fetched batch: a Set (or the producer hook's inject) through a carrier on one record "
+            "leaves the headers of every other record unchanged, any sequence of injections over the records of a batch acts per record, and a forwarded record "
+            "yields its own injected context on extraction whatever was injected into its neighbours. The model is tied to "
+            "plugin/kotel/carrier.go by differential runs — on application-built records, on records decoded by kgo.ProcessFetchPartition (every record of the batch "
+            "is compared after every call, verdict key set-changed-another-records-headers) and on a produce -> poll -> re-produce -> poll bridge through kfake "
+            "(verdict keys extracted-context-differs-from-injected, application-headers-changed) — and the propagation claim is also checked end to end through the real kotel hooks, a kgo producer, kfake and a kgo consumer.",
     "note": "Trusted: Lean kernel; the hand-written carrier model (validated differentially); the OpenTelemetry propagator and SDK; header preservation on the wire is "
-            "observed, not proved in this property.",
+            "observed, not proved in this property; independence of the header slices of fetched records is observed on generated batches, not proved.",
     "technique": "Lean 4 proof (list induction; sequence law by right-induction) with differential correspondence incl. an end-to-end produce/fetch case class",
 }
